@@ -216,12 +216,12 @@ class Graph:
 
 
 # ------------------------------------------------------------------ one case
-FILE_VARIANTS = ['full', 'full', 'absent', 'colonly', 'rowonly', 'short', 'crlf', 'shortcrlf', 'full']
+FILE_VARIANTS = ['full', 'full', 'absent', 'colonly', 'rowonly', 'short', 'crlf', 'shortcrlf', 'full', 'full', 'absent', 'short', 'crlf', 'nonewline']
 
 
 def make_files(rng, m, stub, variant):
     """returns (col bytes|None, row bytes|None) after writing/removing the files"""
-    col_names = [m.vars[j]['name'] for j in m.perm]
+    col_names = [m.vars[j]['name'] for j in m.perm] + [dv['name'] for dv in getattr(m, 'dvars', [])]
     row_names = [m.cons[i]['name'] for i in m.con_order] + [l['name'] for l in m.lcons] + [m.objs[i]['name'] for i in m.obj_order]
     eol = '\r\n' if 'crlf' in variant else '\n'
     if variant.startswith('short'):
@@ -229,6 +229,8 @@ def make_files(rng, m, stub, variant):
         row_names = row_names[:rng.below(len(row_names) + 1)]
     col = ''.join(n + eol for n in col_names).encode('latin-1')
     row = ''.join(n + eol for n in row_names).encode('latin-1')
+    if variant == 'nonewline' and row:
+        row = row[:-1]                     # last line of .row not terminated: ReadError "missing newline"
     if variant == 'absent':
         col = row = None
     elif variant == 'colonly':
@@ -298,6 +300,8 @@ def gen_case(ck, rng, idx, workdir, size):
     if g.sos_groups and accept != ['ALL'] and rng.chance(4, 5):
         accept = accept + [t for t in ('SOS1Constraint', 'SOS2Constraint') if t not in accept]
     nv, nalg, ncon = len(m.vars), len(m.cons), len(m.cons) + len(m.lcons)
+    export_names = rng.chance(1, 2)     # names not requested + cvt:writegraph: BasicProblem::item_name invents names
+    ndv = len(getattr(m, 'dvars', []))
     replay = {'seed': ck.seed, 'case': idx, 'stub': os.path.relpath(stub, VERIF), 'options': opts, 'accept': ','.join(accept),
               'RECSOLVER_QUADOBJ': qenv, 'family': g.family,
               'variant': variant, 'scheme': g.scheme,
@@ -311,8 +315,20 @@ def exec_case(ck, exe, drv, st, case):
     g, m, stub, variant, mode, col, row = (case[k] for k in ('g', 'm', 'stub', 'variant', 'mode', 'col', 'row'))
     nobj, multi, objno, opts, accept, nv, nalg, ncon, replay, idx = (case[k] for k in ('nobj', 'multi', 'objno', 'opts', 'accept', 'nv', 'nalg', 'ncon', 'replay', 'idx'))
     qenv = case['qenv']
+    ndv, export_names = case['ndv'], case['export_names']
     st.inc('family=' + g.family)
     exp = expected_sources(mode, col, row, nv, ncon, nalg, nobj, objno, multi)
+    src_kind = 'files-or-generic'
+    nonl = variant == 'nonewline' and mode in (1, 2) and row is not None
+    if nonl:
+        exp = None
+    if exp is None and export_names and not nonl and not multi and objno == 1:
+        # nothing read / requested, but the graph export asks BasicProblem for names: _x[i], _CON<i>_, _LCON<i>_, _OBJ<i>_
+        src_kind = 'item_name'
+        exp = (['_x[%d]' % (i + 1) for i in range(nv)],
+               ['_CON%d_' % (i + 1) if i < nalg else '_LCON%d_' % (i - nalg + 1) for i in range(ncon)],
+               ['_OBJ%d_' % (i + 1) for i in range(min(nobj, 1))])     # objno=1: only the first objective is delivered
+    st.inc('sources-from=' + src_kind)
     st.inc('mode=%d' % mode)
     st.inc('files=' + variant)
     st.inc('scheme=' + g.scheme)
@@ -322,6 +338,17 @@ def exec_case(ck, exe, drv, st, case):
         os.remove(linkf)
     r = recsolver.run(exe, stub, options=opts, accept=accept, graph=(exp is not None), timeout=60, env={'RECSOLVER_LINKS': linkf}, quadobj=qenv)
     log = r['log']
+    if nonl:
+        # a names file whose last line is not terminated: diagnosed error, no model may be delivered
+        st.inc('class:names-file-missing-newline')
+        ans = drv.ask('np %d %s %s %d %d %d %d %d %d %d' % (mode, '-' if col is None else ('0' if col == b'' else col.hex()), row.hex() if row else '0',
+                                                           nv, ndv, ncon, nalg, nobj, objno, 1 if multi else 0))
+        delivered_any = any(e.get('ev') in ('vars', 'con') for e in log)
+        if (ans == 'error') != (not delivered_any):
+            out.append(('model:missing-newline', 'unterminated .row: Lean model says %r, real driver %s a model' % (ans, 'delivered' if delivered_any else 'did not deliver'), replay, False))
+        if delivered_any and 'missing newline' not in (r['sol'] or '') + r['err'] + r['out']:
+            out.append(('names-file-error-ignored', 'unterminated last line of .row neither diagnosed nor harmless', replay, True))
+        return out
     if r['rc'] != 0 or not any(e.get('ev') == 'end' for e in log):
         st.inc('run:rejected-or-failed')
         if r['rc'] not in (0, 1) and r['rc'] != 'timeout':
@@ -354,7 +381,8 @@ def exec_case(ck, exe, drv, st, case):
     srcs_v = list(evs)
     s1, s2 = sos_names(g)
     srcs_c = list(ecs) + s1 + s2
-    innocent = suffix_free(srcs_v) and suffix_free(srcs_c) and all(srcs_v) and all(srcs_c)
+    srcs_all = srcs_v + srcs_c + list(eos)      # derived variables take names from constraints/objectives: one namespace of roots
+    innocent = suffix_free(srcs_all) and all(srcs_all)
     st.inc('sources:' + ('suffix-free' if innocent else 'adversarial'))
     cls = 'innocent-sources' if innocent else 'adversarial-sources'
     # ---------------- (a) oracle on the delivered names
@@ -376,7 +404,7 @@ def exec_case(ck, exe, drv, st, case):
             st.inc('duplicates:%s:%s' % (kind, cls))
             rp = dict(replay)
             rp['duplicate_names'] = dup[:5]
-            rp['sources'] = {'vars': srcs_v, 'cons': srcs_c}
+            rp['sources'] = {'vars': srcs_v, 'cons': srcs_c, 'objs': list(eos)}
             pending.append(('duplicate-%s-names:%s' % (kind, cls),
                             'two delivered %ss share the name %r (source names: %s)' % (kind, dup[0], 'suffix-free' if innocent else 'not suffix-free'), rp))
     if vnames[:nv] != evs:
@@ -438,13 +466,20 @@ def exec_case(ck, exe, drv, st, case):
     # ---------------- (b) Lean recomputation
     np_line = 'np %d %s %s %d %d %d %d %d %d %d' % (
         mode, '-' if col is None else ('0' if col == b'' else col.hex()), '-' if row is None else ('0' if row == b'' else row.hex()),
-        nv, 0, ncon, nalg, nobj, objno, 1 if multi else 0)
+        nv, ndv, ncon, nalg, nobj, objno, 1 if multi else 0)
+    if src_kind == 'item_name':
+        np_line = 'inames %d %d %d %d %d' % (nv, ndv, ncon, nalg, nobj)
     ans = drv.ask(np_line)
     if not ans.startswith('names '):
         out.append(('model:nameprovider', 'Lean NameProvider model says %r but the real driver delivered names' % ans, dict(replay, op=np_line), False))
         return out + [(sg + ':unclassified', w, rp, True) for sg, w, rp in pending]
     mm = re.match(r'names V(.*) C(.*) O(.*)\Z', ans)
     lv, lc, lo = ([unhx(h) for h in mm.group(k).split()] for k in (1, 2, 3))
+    if src_kind == 'item_name':
+        lo = lo[:len(eos)]
+    lv = lv[:nv]          # FlatConverter keeps the names of the NL variables only (defined-variable names are cut off)
+    if ndv:
+        st.inc('arm:names-with-defined-variables')
     if (lv, lc, lo) != (evs, ecs, eos):
         out.append(('model:nameprovider-vs-reference', 'Lean NameProvider model %r differs from the documented reference %r' % ((lv, lc, lo), (evs, ecs, eos)), dict(replay, op=np_line), False))
     lines = ['reset']
@@ -488,10 +523,9 @@ def exec_case(ck, exe, drv, st, case):
                     dict(replay, first=diffs[:5]), False))
     dinfo = [dict(kv.split('=') for kv in x.split()) for x in a[len(q):]]
     leaves = all(x.get('belowfree') == '1' and x.get('uncounted') == '1' for x in dinfo)
-    sfv = drv.ask('sf ' + ' '.join(hx(n) for n in srcs_v))
-    sfc = drv.ask('sf ' + ' '.join(hx(n) for n in srcs_c))
-    if (sfv == '1' and sfc == '1') != (suffix_free(srcs_v) and suffix_free(srcs_c)):
-        out.append(('model:suffixfree-differs', 'Lean suffixFreeB and the python reference disagree on %r / %r' % (srcs_v, srcs_c), replay, False))
+    sfv = sfc = drv.ask('sf ' + ' '.join(hx(n) for n in srcs_all))
+    if (sfv == '1') != suffix_free(srcs_all):
+        out.append(('model:suffixfree-differs', 'Lean suffixFreeB and the python reference disagree on %r' % (srcs_all,), replay, False))
     st.inc('hyp:topo=%d' % (runinfo.get('topo') == '1'))
     if runinfo.get('topo') == '1' and runinfo.get('wellfed') != '1':
         out.append(('model:topo-implies-wellfed-contradicted', 'topoB holds but wellFed does not on this run (C19_wellFed_of_topological)', replay, False))
@@ -562,11 +596,11 @@ def nameprovider_cases(rng, n):
     return cases
 
 
-def stage_nameprovider(ck, drv, st, rng, workdir, n):
-    fl = ['-O1', '-g', '-fsanitize=address,undefined', '-fno-sanitize-recover=all']
-    objs = ck.objects([os.path.join(REPO, s) for s in ['src/nl-reader.cc', 'src/os.cc', 'src/posix.cc', 'src/format.cc']], flags=fl, tag='mpasan')
+def stage_nameprovider(ck, drv, st, rng, workdir, n, cov=False):
+    fl = ['-O0', '-g', '--coverage'] if cov else ['-O1', '-g', '-fsanitize=address,undefined', '-fno-sanitize-recover=all']
+    objs = ck.objects([os.path.join(REPO, s) for s in ['src/nl-reader.cc', 'src/os.cc', 'src/posix.cc', 'src/format.cc']], flags=fl, tag='mpcov' if cov else 'mpasan')
     h = ck.objects([os.path.join(VERIF, 'harness', 'h_names.cc')], flags=fl, tag='c19')
-    exe = ck.link('h_names', h + objs, flags=['-fsanitize=address,undefined', '-Wl,--wrap=mmap'])
+    exe = ck.link('h_names', h + objs, flags=(['--coverage'] if cov else ['-fsanitize=address,undefined']) + ['-Wl,--wrap=mmap'])
     ck.log('h_names built')
     cases = nameprovider_cases(rng, n)
     inp = ''.join(('-' if c is None else ('0' if c == b'' else c.hex())) + '\n' for c in cases)
@@ -655,7 +689,20 @@ def stage_counterexamples(ck, exe, st, workdir):
 
 
 # ------------------------------------------------------------------ main
+def build_cov_recsolver(ck):
+    fl = ('-O0', '-g', '--coverage')
+    srcs = [os.path.join(recsolver.RDIR, f) for f in ['recmain.cc', 'recmodelmgr.cc', 'recmodelapi.cc', 'recbackend.cc']]
+    objs = ck.objects(srcs, flags=fl, extra_inc=[recsolver.RDIR], tag='rec')
+    return ck.link('recsolver_cov', objs + ck.libmp_objects(flags=fl), flags=['--coverage'])
+
+
 def run(ck):
+    cov = os.environ.get('VERIF_COVERAGE') == '1'
+    if cov:
+        import common, c19_cov
+        common.BUILD = os.path.join(VERIF, 'build', 'cov')      # separate build dir: objects carry .gcno/.gcda
+        os.makedirs(common.BUILD, exist_ok=True)
+        c19_cov.clean(common.BUILD)
     st = Stats()
     proof_ok, failing = ck.proof_stage('MpVerif.C19.Props', 'MpVerif/C19/Props.lean', 'C19_', ['MpVerif/C19/*.lean'], expect_min=N_THEOREMS)
     ck.log('proof stage: ok=%s failing=%s' % (proof_ok, failing[:10]))
@@ -664,7 +711,7 @@ def run(ck):
         if bad:
             failing += ['leanchecker rejected %s' % b for b in bad]
             proof_ok = False
-    exe = recsolver.build(ck)
+    exe = build_cov_recsolver(ck) if cov else recsolver.build(ck)
     ck.log('recsolver built')
     drv = Drv(ck.driver('drv_c19'))
     ck.log('lean driver built')
@@ -672,7 +719,7 @@ def run(ck):
     shutil.rmtree(workdir, ignore_errors=True)
     os.makedirs(workdir)
     rng = nlgen.Rng(ck.seed * 7919 + 19)
-    n_np = stage_nameprovider(ck, drv, st, rng, workdir, 150 if ck.tier == 'quick' else 1500)
+    n_np = stage_nameprovider(ck, drv, st, rng, workdir, 150 if ck.tier == 'quick' else 1500, cov=cov)
     ck.log('NameProvider stage: %d files' % n_np)
     stage_counterexamples(ck, exe, st, workdir)
     ncases = 1200 if ck.tier == 'quick' else 12000
@@ -694,6 +741,8 @@ def run(ck):
                 ck.log('case %d: %s: %s' % (idx, sig, what[:200]))
             st.inc('finding:' + sig)
     drv.close()
+    if cov:
+        c19_cov.report(ck, common.BUILD, dict(st.d))
     for sig, (what, replay, fi) in found.items():
         ck.add_violation(sig, what, replay, found_input=fi)
     if not proof_ok:
